@@ -167,6 +167,10 @@ _ODD_NAMES = sorted(ODD_KINDS)
 _ODD_RE = re.compile("^(" + "|".join(ODD_KINDS) + ")[0-9]*$")
 
 
+DECODE_EXTRA = [None]     # optional str -> object: further protocol tokens (value SHAPES: attrs instances, dicts, lists; C12 only)
+CANON_EXTRA = [None]      # optional object -> token | None: the way back for the objects DECODE_EXTRA made
+
+
 def decode(v):
     """protocol value -> Python argument: the token "None" is the real None, the tokens of ODD_KINDS are objects with
     unusual special methods (both canonicalised back by _canon)"""
@@ -176,6 +180,8 @@ def decode(v):
         m = _ODD_RE.match(v)
         if m:
             return ODD_KINDS[m.group(1)](v)
+        if DECODE_EXTRA[0] is not None:
+            return DECODE_EXTRA[0](v)
     return v
 
 
@@ -183,6 +189,10 @@ def decode(v):
 def _canon(v):
     if isinstance(v, Odd):          # first: nothing below may compare / truth-test / hash such a value
         return v.token
+    if CANON_EXTRA[0] is not None:
+        t = CANON_EXTRA[0](v)
+        if t is not None:
+            return t
     if v is attr.NOTHING:
         return "NOTHING"
     if type(v) in _DFLT_TYPES:          # exact type: a plain str/int/bytes of equal value is NOT the declared default
